@@ -1,5 +1,5 @@
 use std::num::NonZero;
-use std::panic::{RefUnwindSafe, UnwindSafe};
+use std::panic::{self, AssertUnwindSafe, RefUnwindSafe, UnwindSafe};
 use std::sync::{Arc, Mutex, mpsc};
 use std::thread::{self, JoinHandle};
 use std::{iter, mem};
@@ -144,7 +144,7 @@ impl ThreadPool {
         let mut results = Vec::with_capacity(self.thread_count.get());
 
         let (mut result_txs, result_rxs): (Vec<_>, Vec<_>) =
-            iter::repeat_with(oneshot::channel::<R>)
+            iter::repeat_with(oneshot::channel::<thread::Result<R>>)
                 .take(self.thread_count.get())
                 .unzip();
 
@@ -175,7 +175,9 @@ impl ThreadPool {
                     .expect("type invariant - one command_tx per thread");
 
                 move || {
-                    let result = f();
+                    // A panic in the task must not kill the worker or cut the wait below short:
+                    // it is carried to the caller, who re-raises it once every worker is done.
+                    let result = panic::catch_unwind(AssertUnwindSafe(f));
 
                     result_tx.send(result).expect(
                         "receiver must still exist - this is mandatory for scoped lifetime logic",
@@ -185,11 +187,24 @@ impl ThreadPool {
             .expect("worker thread must still exist - thread pool cannot operate without workers");
         }
 
+        // Wait for every worker before propagating any panic: the tasks borrow from the caller
+        // (see the lifetime erasure above), so none may still be running when we unwind.
+        let mut first_panic = None;
+
         for rx in result_rxs {
-            results.push(
-                rx.recv()
-                    .expect("worker thread failed to send result - did it panic?"),
-            );
+            match rx
+                .recv()
+                .expect("worker thread failed to send result - did it panic?")
+            {
+                Ok(result) => results.push(result),
+                Err(payload) => {
+                    first_panic.get_or_insert(payload);
+                }
+            }
+        }
+
+        if let Some(payload) = first_panic {
+            panic::resume_unwind(payload);
         }
 
         results.into_boxed_slice()
